@@ -10,27 +10,39 @@
 #include <stdlib.h>
 #include <string.h>
 #include <assert.h>
+#ifndef VH_BLACKBOX      /* white-box view: private structures of the repository, used ONLY to identify states (fs_canon) */
 static int vf_clock_gettime(clockid_t id, struct timespec *ts);
 #define clock_gettime vf_clock_gettime
 #include "libmy/my_fileset.c"
 #include "fileset.c"
 #undef clock_gettime
+#else                    /* black-box build: fileset.c and my_fileset.c are compiled as library files with -Dclock_gettime=vf_clock_gettime */
+int vf_clock_gettime(clockid_t id, struct timespec *ts);
+#endif
 #include "tbl.h"
 #include "bfs.h"
 #include <dirent.h>
 
+#ifndef VH_BLACKBOX
 size_t vm_merger_nsources(struct mtbl_merger *m);
 const struct mtbl_source *vm_merger_source_at(struct mtbl_merger *m, size_t i);
+#endif
 
 /* ---- harness-owned monotonic clock ---- */
 static int64_t clk_sec; static long clk_nsec;
-static int vf_clock_gettime(clockid_t id, struct timespec *ts) { (void) id; clk_nsec++; ts->tv_sec = clk_sec; ts->tv_nsec = clk_nsec; return 0; }
+#ifndef VH_BLACKBOX
+static
+#endif
+int vf_clock_gettime(clockid_t id, struct timespec *ts) { (void) id; clk_nsec++; ts->tv_sec = clk_sec; ts->tv_nsec = clk_nsec; return 0; }
 
 /* ---- world ---- */
 static char g_dir[300];
-#define NVER 6
+#define NVER 7
 /* files named by each setfile version (bit0=f1, bit1=f2, bit2=f3) and its literal text */
-static const unsigned VMASK[NVER] = { 1, 3, 6, 4, 3, 1 };   /* version 5 lists f1 and f2, but f2 has been removed from disk before the setfile is written */
+static const unsigned VMASK[NVER] = { 1, 3, 6, 4, 3, 1, 1 };   /* version 5 lists f1 and f2, but f2 has been removed from disk before the setfile is written;
+                                                                * version 6 names f1 twice (once relative, once absolute).  How often a file named twice contributes is not judged:
+                                                                * once such a version is in the history, repeated entries of one file are accepted wherever one is expected */
+#define VDUP 6
 static void setfile_text(int v, char *out, size_t n) {
 	switch (v) {
 	case 0: snprintf(out, n, "f1.mtbl\n"); break;
@@ -38,6 +50,7 @@ static void setfile_text(int v, char *out, size_t n) {
 	case 2: snprintf(out, n, "f2.mtbl\nf3.mtbl\n"); break;
 	case 3: snprintf(out, n, "f3.mtbl\nnope.mtbl\njunk\n"); break;
 	case 4: snprintf(out, n, "%s/f1.mtbl\nf2.mtbl\n", g_dir); break;
+	case 6: snprintf(out, n, "f1.mtbl\n%s/f1.mtbl\n", g_dir); break;
 	default: snprintf(out, n, "f1.mtbl\nf2.mtbl\n"); break;
 	}
 }
@@ -97,7 +110,7 @@ static unsigned filt_mask(int h, unsigned m) { if (h == 1 && CFG.filtB == 1) m &
 #define MAXH 12
 typedef struct {
 	struct mtbl_fileset *fs[2]; bool alive[2];
-	struct mtbl_iter *it[2]; unsigned it_mask[2]; int it_pos[2]; bool it_failed[2];
+	struct mtbl_iter *it[2]; unsigned it_mask[2]; int it_pos[2]; bool it_failed[2]; uint8_t it_lastk[2][4]; size_t it_lastn[2]; bool it_havelast[2];
 	/* world */
 	int hist[MAXH]; int nhist;              /* setfile versions in order; hist[nhist-1] is current */
 	/* reference */
@@ -117,18 +130,31 @@ static struct mtbl_fileset_options *mkopt(uint32_t iv, int filt) {
 	return o;
 }
 
+/* has a version that names one file twice been written at any point of this history? */
+static bool dup_lenient(void) { for (int j = 0; j < S.nhist; j++) if (S.hist[j] == VDUP) return true; return false; }
+/* number of distinct keys an iterator returns (a key repeated because its file was named twice counts once when lenient) */
+static int count_keys(struct mtbl_iter *it) {
+	const uint8_t *k, *v; size_t kl, vl; int n = 0; uint8_t last[8]; size_t lastn = 0; bool have = false, len = dup_lenient();
+	while (it && mtbl_iter_next(it, &k, &kl, &v, &vl) == mtbl_res_success) { if (!(len && have && kl == lastn && kl <= sizeof last && !memcmp(last, k, kl))) n++; if (kl <= sizeof last) { memcpy(last, k, kl); lastn = kl; have = true; } }
+	return n;
+}
 /* decode what an iterator returns into a file mask; -1 if the content is not the merge of any file set */
 static int drain_mask(struct mtbl_iter *it, int *count) {
-	const uint8_t *k, *v; size_t kl, vl; unsigned mk = 0, sm = 0; int n = 0; char last[4] = ""; bool bad = false;
+	const uint8_t *k, *v; size_t kl, vl; unsigned mk = 0, sm = 0; int n = 0; char last[4] = ""; bool bad = false, len = dup_lenient();
 	while (it && mtbl_iter_next(it, &k, &kl, &v, &vl) == mtbl_res_success) {
 		n++;
 		if (kl > 2 || (last[0] && vh_bscmp((uint8_t *) last, strlen(last), k, kl) > 0)) bad = true;
-		if (!CFG.merge && last[0] && strlen(last) == kl && !memcmp(last, k, kl) && kl != 1) bad = true;
+		if (!len && !CFG.merge && last[0] && strlen(last) == kl && !memcmp(last, k, kl) && kl != 1) bad = true;
 		memcpy(last, k, kl); last[kl] = 0;
-		if (kl == 2 && k[0] == 'm' && k[1] >= '1' && k[1] <= '3') { unsigned b = 1u << (k[1] - '1'); if (mk & b) bad = true; mk |= b; if (vl != 2 || v[0] != 'F' || v[1] != k[1]) bad = true; }
-		else if (kl == 1 && k[0] == 's') { for (size_t i = 0; i + 1 < vl; i++) if (v[i] == 'F' && v[i + 1] >= '1' && v[i + 1] <= '3') { unsigned b = 1u << (v[i + 1] - '1'); if (sm & b) bad = true; sm |= b; } if (!CFG.merge && vl != 2) bad = true; }
+		if (kl == 2 && k[0] == 'm' && k[1] >= '1' && k[1] <= '3') {
+			unsigned b = 1u << (k[1] - '1'); if ((mk & b) && !len) bad = true; mk |= b;
+			bool plain = vl == 2 && v[0] == 'F' && v[1] == k[1];
+			bool twice = len && CFG.merge && vl == 7 && v[0] == '(' && v[1] == 'F' && v[2] == k[1] && v[3] == '+' && v[4] == 'F' && v[5] == k[1] && v[6] == ')';
+			if (!plain && !twice) bad = true;
+		}
+		else if (kl == 1 && k[0] == 's') { for (size_t i = 0; i + 1 < vl; i++) if (v[i] == 'F' && v[i + 1] >= '1' && v[i + 1] <= '3') { unsigned b = 1u << (v[i + 1] - '1'); if ((sm & b) && !len) bad = true; sm |= b; } if (!CFG.merge && vl != 2) bad = true; }
 		else bad = true;
-		if (n > 12) { bad = true; break; }
+		if (n > 14) { bad = true; break; }
 	}
 	if (count) *count = n;
 	if (bad || mk != sm) return -1;
@@ -240,23 +266,29 @@ static bool fs_step(void *ctx, int op) {
 			struct mtbl_iter *g = mtbl_source_get(src, (const uint8_t *) "s", 1); const uint8_t *k, *v; size_t kl, vl;
 			bool has = g && mtbl_iter_next(g, &k, &kl, &v, &vl) == mtbl_res_success; mtbl_iter_destroy(&g);
 			if (has != (obs != 0)) { mtbl_iter_destroy(&it); snprintf(bfs_fail, sizeof bfs_fail, "handle %c: get(s) %s but the view holds %d files", 'A' + h, has ? "succeeds" : "fails", __builtin_popcount(obs)); return false; }
-			struct mtbl_iter *pf = mtbl_source_get_prefix(src, (const uint8_t *) "m", 1); int n = 0; while (pf && mtbl_iter_next(pf, &k, &kl, &v, &vl) == mtbl_res_success) n++; mtbl_iter_destroy(&pf);
+			struct mtbl_iter *pf = mtbl_source_get_prefix(src, (const uint8_t *) "m", 1); int n = count_keys(pf); mtbl_iter_destroy(&pf);
 			if (n != __builtin_popcount(obs)) { mtbl_iter_destroy(&it); snprintf(bfs_fail, sizeof bfs_fail, "handle %c: get_prefix(m) returns %d entries, the view holds %d files", 'A' + h, n, __builtin_popcount(obs)); return false; }
-			struct mtbl_iter *rg = mtbl_source_get_range(src, (const uint8_t *) "m2", 2, (const uint8_t *) "m3", 2); n = 0; while (rg && mtbl_iter_next(rg, &k, &kl, &v, &vl) == mtbl_res_success) n++; mtbl_iter_destroy(&rg);
+			struct mtbl_iter *rg = mtbl_source_get_range(src, (const uint8_t *) "m2", 2, (const uint8_t *) "m3", 2); n = count_keys(rg); mtbl_iter_destroy(&rg);
 			if (n != __builtin_popcount(obs & 6)) { mtbl_iter_destroy(&it); snprintf(bfs_fail, sizeof bfs_fail, "handle %c: get_range(m2,m3) returns %d entries", 'A' + h, n); return false; }
 		}
-		if (keep) { S.it[h] = it; S.it_mask[h] = obs; S.it_pos[h] = 0; S.it_failed[h] = false; }
+		if (keep) { S.it[h] = it; S.it_mask[h] = obs; S.it_pos[h] = 0; S.it_failed[h] = false; S.it_havelast[h] = false; }
 		else { mtbl_iter_destroy(&it); after_close_point(h); }
 		return true; }
 	case OP_STEP: {
 		const uint8_t *k, *v; size_t kl, vl;
 		mtbl_res r = mtbl_iter_next(S.it[h], &k, &kl, &v, &vl);
 		int len = seq_len(S.it_mask[h]);
+		if (r == mtbl_res_success && !S.it_failed[h]) {
+			bool normal = S.it_pos[h] < len && seq_check(S.it_mask[h], S.it_pos[h], k, kl);
+			/* a key repeated because its file was named twice is accepted and does not advance the position */
+			bool duprep = dup_lenient() && S.it_havelast[h] && kl == S.it_lastn[h] && !memcmp(k, S.it_lastk[h], kl);
+			if (kl <= 4) { memcpy(S.it_lastk[h], k, kl); S.it_lastn[h] = kl; S.it_havelast[h] = true; }
+			if (normal) { S.it_pos[h]++; return true; }
+			if (duprep) return true;
+		}
 		if (S.it_pos[h] >= len || S.it_failed[h]) { S.it_failed[h] = true; if (r == mtbl_res_success) { snprintf(bfs_fail, sizeof bfs_fail, "iterator of handle %c returned key %s after the end of its snapshot", 'A' + h, vh_hex(k, kl)); return false; } return true; }
 		if (r != mtbl_res_success) { snprintf(bfs_fail, sizeof bfs_fail, "iterator of handle %c failed at position %d of its %d-entry snapshot", 'A' + h, S.it_pos[h], len); return false; }
-		if (!seq_check(S.it_mask[h], S.it_pos[h], k, kl)) { snprintf(bfs_fail, sizeof bfs_fail, "iterator of handle %c returned key %s at position %d: not its snapshot (files mask %u)", 'A' + h, vh_hex(k, kl), S.it_pos[h], S.it_mask[h]); return false; }
-		S.it_pos[h]++;
-		return true; }
+		snprintf(bfs_fail, sizeof bfs_fail, "iterator of handle %c returned key %s at position %d: not its snapshot (files mask %u)", 'A' + h, vh_hex(k, kl), S.it_pos[h], S.it_mask[h]); return false; }
 	case OP_CLOSE: mtbl_iter_destroy(&S.it[h]); after_close_point(h); return true;
 	}
 	return true;
@@ -283,7 +315,8 @@ static uint64_t fs_canon(void *ctx) {
 	h = vh_mix(h, (uint64_t) (S.j_U - (S.j_lo < 0 ? 0 : S.j_lo) + 1) * 4 + S.cold * 2 + S.pinned);
 	if (S.pinned) h = vh_mix(h, S.pin_cands >> (S.j_lo < 0 ? 0 : S.j_lo));
 	int64_t age = clk_sec - S.U_sec; if (age > 4) age = 4; h = vh_mix(h, age + 100 * g_deferred_now);
-	for (int k = 0; k < 2; k++) { h = vh_mix(h, S.alive[k] * 8 + (S.it[k] != NULL) * 4 + S.it_failed[k]); if (S.it[k]) h = vh_mix(h, S.it_mask[k] * 16 + S.it_pos[k]); }
+	for (int k = 0; k < 2; k++) { h = vh_mix(h, S.alive[k] * 8 + (S.it[k] != NULL) * 4 + S.it_failed[k]); if (S.it[k]) { h = vh_mix(h, S.it_mask[k] * 16 + S.it_pos[k]); if (S.it_havelast[k]) h = vh_hash(S.it_lastk[k], S.it_lastn[k], h); } }
+#ifndef VH_BLACKBOX
 	/* implementation: shared fileset, my_fileset, per-handle stamps and merger contents */
 	struct shared_fileset *sh = S.alive[0] ? S.fs[0]->shared_fs : S.alive[1] ? S.fs[1]->shared_fs : NULL;
 	if (sh) {
@@ -301,6 +334,7 @@ static uint64_t fs_canon(void *ctx) {
 			for (size_t i = 0; i < ns; i++) { const struct mtbl_source *s = vm_merger_source_at(f->merger, i); int which = -1; for (size_t q = 0; q < entry_vec_size(m->entries); q++) { struct fileset_entry *e = entry_vec_value(m->entries, q); if (e->ptr && mtbl_reader_source(e->ptr) == s) which = (int) q; } h = vh_mix(h, which + 2); }
 		}
 	}
+#endif
 	return h;
 }
 static const char *fs_explain(void *ctx, const int *ops, int nops) {
@@ -308,7 +342,7 @@ static const char *fs_explain(void *ctx, const int *ops, int nops) {
 	o += snprintf(b + o, sizeof b - o, "intervals A=%u B=%u filterB=%d merge=%d %s; ops:", CFG.ivA, CFG.ivB, CFG.filtB, CFG.merge, CFG.warm ? "warm" : "cold");
 	for (int i = 0; i < nops && o < 1100; i++) {
 		int op = ops[i], h = op % 10;
-		if (op < 10) { static const char *vn[] = { "{f1}", "{f1,f2}", "{f2,f3}", "{f3,missing,junk}", "{/abs/f1,f2}", "{f1,f2 but f2 deleted from disk}" }; o += snprintf(b + o, sizeof b - o, " set%s", vn[op]); }
+		if (op < 10) { static const char *vn[] = { "{f1}", "{f1,f2}", "{f2,f3}", "{f3,missing,junk}", "{/abs/f1,f2}", "{f1,f2 but f2 deleted from disk}", "{f1,/abs/f1: the same file named twice}" }; o += snprintf(b + o, sizeof b - o, " set%s", vn[op]); }
 		else if (op == OP_TICK1) o += snprintf(b + o, sizeof b - o, " tick(1s)"); else if (op == OP_TICK3) o += snprintf(b + o, sizeof b - o, " tick(3s)"); else if (op == OP_TICK1Z) o += snprintf(b + o, sizeof b - o, " tick(1s,nsec:=0)"); else if (op == OP_TICK3Z) o += snprintf(b + o, sizeof b - o, " tick(3s,nsec:=0)");
 		else if (op == OP_DESTROY_A) o += snprintf(b + o, sizeof b - o, " destroy(A)");
 		else { static const char *kn[] = { "", "", "reload", "reload_now", "open", "step", "close", "observe" }; o += snprintf(b + o, sizeof b - o, " %s(%c)", kn[op / 10], 'A' + h); }
